@@ -40,6 +40,33 @@ Proof.
 Qed.
 Print Assumptions C05_registry_empty_after_shutdown_refuted.
 
+(* REFUTED (liveness): "terminating an actor terminates all of its descendants" fails for a GRACEFUL termination when a
+   descendant is suspended after a failure and the decision of its supervisor does not release it. Graceful requests
+   travel as user messages (the parent hands the graceful flag down to its children), and a suspended mailbox takes no
+   user message. Witness: a0 (all-for-one: restarts every child of its own on a failure escalated to it) > a1 (escalates)
+   > a2 (fails on probe 7). a1 is told to stop gracefully; a2 fails; a1 — now terminating — hands the graceful request to
+   a2 (stuck behind the suspension), escalates the failure to a0, whose decision "restart my children" is ignored by the
+   terminating a1. a2 stays suspended for ever, a1 waits for a2, a0 for a1, and a graceful Shutdown never completes:
+   no step is enabled, the system has not closed, four actors are still registered.
+   (Open finding C05-graceful-stop-never-reaches-suspended-descendant; a non-graceful stop is a system message and does
+   terminate a2.) *)
+Theorem C05_graceful_shutdown_completes_refuted :
+  exists roles ls s os,
+    (forall ro ru t r, In ro roles -> In ru (rules ro) -> In (ASpawn t r) (r_do ru) -> 0 <= t /\ r_on ru <> KTS) /\
+    krun roles kinit ls = Some (s, os) /\ In (LShutdown true) ls /\ quiet s = true /\ closed s = false /\
+    lookup 2 (registry s) <> None.
+Proof.
+  exists [ {| victim := None; sup := [DRestartAll]; rules := [ {| r_on := KL; r_n := -1; r_inst := -1; r_do := [ASpawn 1 1] |} ] |};
+           {| victim := None; sup := []; rules := [ {| r_on := KL; r_n := -1; r_inst := -1; r_do := [ASpawn 2 2] |} ] |};
+           {| victim := None; sup := []; rules := [ {| r_on := KP; r_n := 7; r_inst := -1; r_do := [APanic] |} ] |} ],
+         [LSpawn 0 0; LRun 2; LRun 3; LRun 4; LTell 2 7; LTerm 1 true; LRun 3; LRun 4; LRun 3; LRun 3; LRun 2; LRun 3;
+          LShutdown true; LRun 0; LRun 0; LRun 1; LRun 1; LRun 2; LRun 2; LRun 3; LRun 0].
+  eexists. eexists. split.
+  - intros ro ru t r Hro Hru Hact. cbn in Hro. destruct Hro as [<-|[<-|[<-|[]]]]; cbn in Hru; destruct Hru as [<-|[]]; cbn in Hact; destruct Hact as [E|[]]; inversion E; subst; split; try lia; discriminate.
+  - split; [vm_compute; reflexivity|]. split; [cbn; tauto|]. split; [vm_compute; reflexivity|]. split; [vm_compute; reflexivity|]. vm_compute. discriminate.
+Qed.
+Print Assumptions C05_graceful_shutdown_completes_refuted.
+
 (* HIERARCHY (partial: two hypotheses on the scripts, both necessary — see the refuted theorem above for the first).
    For every role table whose scripts spawn only under non-negative (user) addresses and never from a rule triggered
    by the actor's own OnTerminated, and every label sequence whose external spawns use non-negative addresses — i.e.
